@@ -685,13 +685,13 @@ def candidates(atom, idx):
 
 def cached_round_trip(ctx, srcs):
     cache = ctx.__dict__.setdefault('_c09_cache', {})
+    if len(cache) > 50000:
+        cache.clear()
     todo = [s for s in dict.fromkeys(srcs) if s not in cache]
     if todo:
-        if len(cache) > 50000:
-            cache.clear()
         for s, r in zip(todo, round_trip(ctx, todo)):
             cache[s] = r
-    return [cache[s] if s in cache else ('skip', 'evicted') for s in srcs]
+    return [cache[s] for s in srcs]
 
 
 def isolate_many(ctx, failing):
